@@ -50,6 +50,8 @@ const (
 	VALUE_OVERFLOW
 )
 
+const maxStringLength = 512 * 1024 * 1024
+
 var maxTime = time.Date(9999, 12, 31, 23, 59, 59, 999, time.UTC)
 var minTime = time.Date(2000, 1, 1, 0, 0, 0, 0, time.UTC)
 var wrongTypeError = respErrorString("WRONGTYPE Operation against a key holding the wrong kind of value")
@@ -241,6 +243,16 @@ func (dsc *dataStoreCommand) setKeys(keys []string, values []string, options bit
 func (dsc *dataStoreCommand) setRange(keyName string, offset int, substring string) (result respValue) {
 	dsc.lock()
 	defer dsc.unlock()
+
+	// the offset comes from the client; redis limits a string to 512MB
+	if offset < 0 {
+		result.data = respErrorString("ERR offset is out of range")
+		return
+	}
+	if offset > maxStringLength-len(substring) {
+		result.data = respErrorString("ERR string exceeds maximum allowed size (proto-max-bulk-len)")
+		return
+	}
 
 	var setBytes []byte
 	expiration := maxTime
